@@ -22,7 +22,8 @@ CHECKS = {
              "transcoders over the generated layouts / flag / enum / trigger tables, the five rebuilders, save) is tied to "
              "the implementation BYTE FOR BYTE on generated whole maps and the fixtures. Proved about it: every flag word "
              "keeps exactly its defined bits, location slots round-trip under the last-id guard, unknown / unsupported "
-             "entries and unmodelled sections are untouched. The full statement (spec_view preserved) is false of the "
+             "entries and unmodelled sections are untouched, and - for a well-formed string table - an unedited save emits the STR "
+             "section exactly as it was loaded (everything decode_chk builds mentions only texts that table resolves). The full statement (spec_view preserved) is false of the "
              "unchanged code outside four recorded findings; it is judged per map by an independent reader of the bytes "
              "before and after, every difference matched against the recorded finding predicates.",
         ref="DESIGN.md 5.9",
@@ -33,7 +34,7 @@ CHECKS = {
     "C03": dict(
         text="PARTIAL. Same pipeline model, tied byte for byte. Proved: MRGN and UPRP slot codecs are the identity in editor "
              "form (reserved bits clear, last-id references, owner 0 — editor-prefilled slots included), unmodelled sections "
-             "come back identical in place. Byte identity of whole editor-form maps and idempotence of the cycle for every "
+             "come back identical in place, the STR section of an unedited map is emitted exactly as loaded. Byte identity of whole editor-form maps and idempotence of the cycle for every "
              "decodable map (editor-form and non-canonical) are checked on the implementation per map; the three places "
              "where the unchanged code is not byte-identical are recorded findings with replayed witnesses.",
         ref="DESIGN.md 5.10",
@@ -82,15 +83,21 @@ CHECKS = {
         tech="Coq proof (generic offset theorem by induction on layouts; table equality by computation) + translator + sentinel correspondence",
     ),
     "C07": dict(
-        text="PARTIAL. Coq theorems (the one-step facts the Frozen invariant is an induction over): added triggers are "
+        text="PARTIAL. Coq theorems: by INDUCTION OVER THE EDIT SEQUENCE every section the operations do not address stays "
+             "where and as it was; string numbers are never renumbered (the lookup of a grown table is the old lookup "
+             "followed by new texts); hence for any edit history the sound table / unit settings the unedited save emits are "
+             "emitted byte for byte; the rebuilt location list is the old one followed by the newly placed locations and every "
+             "occupied index still resolves to its location; added triggers are "
              "appended (existing ones keep content and position), every string id keeps its text through the save path's "
              "rebuild, slots handed to new locations / unit-property sets were empty, sections without a rich model keep "
-             "place and bytes; and a refutation on the model of the recorded finding (split TRIG sections). Random edit "
+             "place and bytes; and a refutation on the model of the recorded finding (split TRIG sections). Not proved as one "
+             "statement: byte identity of pre-existing TRIG records (needs the same argument for location / switch / "
+             "unit-property numbers). Random edit "
              "sequences are run on the implementation and compared slot by slot with the save of the unedited map by an "
              "independent reader; the pipeline model reproduces every saved map byte for byte.",
         ref="DESIGN.md 5.12",
         note="Known finding: split-trig-sections (F19).",
-        tech="Coq proof (one-step invariance lemmas, partial) + byte-exact model correspondence over edit sequences + independent-reader oracle",
+        tech="Coq proof (induction over edit sequences; growth lemmas for the string table; partial) + byte-exact model correspondence over edit sequences + independent-reader oracle",
     ),
     "C08": dict(
         text="Coq theorem C08_add_strings_correct about a hand model of the STR/STRx editors (w = 2 | 4): for every "
@@ -293,7 +300,7 @@ def main():
         }],
         "checks": checks,
         "not_applicable": [{"property_id": p, "reason": NOT_YET} for p in ALL if p not in CHECKS],
-        "notes": "19 fix: commits in /repo (7837be1 ... cee72c9) and 16 recorded findings: see KNOWN_FINDINGS.txt and DESIGN.md section 10.4 / 10.7. Seeded breaking changes (76 in four rounds) and what catches them: /verif/seeded and DESIGN.md section 10.6.",
+        "notes": "22 fix: commits in /repo (7837be1 ... f9613d2) and 17 recorded findings: see KNOWN_FINDINGS.txt and DESIGN.md section 10.4 / 10.7. Seeded breaking changes (95 in five rounds) and what catches them: /verif/seeded and DESIGN.md section 10.6.",
     }
     Path("/verif/MANIFEST.json").write_text(json.dumps(m, indent=1) + "\n")
 
